@@ -1,9 +1,10 @@
 CONSTANTS
+  Dom = "replay_thorough"
   NCb = 3
-  Names = {"all", "start", "descriptor", "event", "stop"}
-  PlanIds = {1, 2, 3, 4, 5}
+  Names = {}
+  PlanIds = {}
   MaxRaise = 1
-  DeliverAll = FALSE
+  DeliverAlls = {FALSE, TRUE}
 SPECIFICATION Spec
 INVARIANT TypeOK
 INVARIANT C19_OnceInOrder
@@ -14,3 +15,4 @@ INVARIANT C19_IgnoreDoesNotStopPlan
 INVARIANT C19_PropagateEndsPlan
 INVARIANT C19_RunClosedFail
 INVARIANT C19_RunClosedForAll
+CONSTRAINT Dump
